@@ -155,6 +155,82 @@ def container_validator_stream(ctx, res, n):
                     res.violate("C06:container-validator-changed-state", "an assignment rejected by the field's own validator changed the container held before", case)
 
 
+def validated_container_element_stream(ctx, res, n):
+    """single-element operations on typed lists / dicts whose FIELD carries a validator over the whole container (no duplicates, a
+    maximum size), with the shapes in which an undo can go wrong: an appended item equal to one already there (plain values and
+    configurations equal by content), insertions at negative and out-of-range positions, replacements addressed with another spelling
+    of a stored key (the key field normalises). Whatever is rejected leaves contents, order and item identity as they were."""
+    import cincoconfig as cc
+    rng = ctx.rng
+
+    def no_dups_small(cfg, v):
+        xs = list(v.values()) if isinstance(v, dict) else list(v)
+        ks = [repr(x.to_tree()) if isinstance(x, cc.Config) else repr(x) for x in xs]
+        if len(set(ks)) != len(ks):
+            raise ValueError("duplicates")
+        if len(xs) > 4:
+            raise ValueError("too many")
+        return v
+
+    for i in range(n):
+        pt = cc.Schema()
+        pt.name = cc.StringField(default="n")
+        T = cc.make_type(pt, "VPt%d" % i) if rng.random() < 0.5 else pt
+        s = cc.Schema()
+        s.nums = cc.ListField(cc.IntField(), validator=no_dups_small, default=lambda: [])
+        s.pts = cc.ListField(T, validator=no_dups_small, default=lambda: [])
+        s.byname = cc.DictField(cc.StringField(transform_case="lower", transform_strip=True), cc.IntField(), validator=no_dups_small, default=lambda: {})
+        s.bynum = cc.DictField(cc.IntField(), cc.StringField(), validator=no_dups_small, default=lambda: {})
+        cfg = s()
+        try:
+            cfg.nums = rng.sample(range(10), rng.randint(2, 4))
+            cfg.pts = [{"name": "p%d" % j} for j in range(rng.randint(2, 4))]
+            cfg.byname = {"alpha": 1, "beta": 2, "gamma": 3}
+            cfg.bynum = {1: "a", 2: "b"}
+        except Exception as e:  # noqa
+            res.case(None, kind="validated-container:setup-%s" % type(e).__name__)
+            continue
+        nums, pts, byname, bynum = cfg.nums, cfg.pts, cfg.byname, cfg.bynum
+        dup = nums[rng.randrange(len(nums))]
+        dup_pt = T()
+        dup_pt.name = pts[0].name
+        fresh_pt = T()
+        fresh_pt.name = "fresh"
+        ops = [("append-duplicate", lambda: nums.append(dup)), ("append-duplicate-text", lambda: nums.append(str(dup))),
+               ("insert-negative-duplicate", lambda: nums.insert(-1, dup)), ("insert-beyond-end-duplicate", lambda: nums.insert(99, dup)),
+               ("insert-far-negative-duplicate", lambda: nums.insert(-99, dup)), ("setidx-duplicate", lambda: nums.__setitem__(-1, nums[0])),
+               ("append-equal-configuration", lambda: pts.append(dup_pt)), ("insert-negative-equal-configuration", lambda: pts.insert(-1, dup_pt)),
+               ("append-map-equal-configuration", lambda: pts.append({"name": pts[-1].name})),
+               ("dict-replace-other-spelling", lambda: byname.__setitem__(" ALPHA ", 2)), ("dict-replace-same-spelling", lambda: byname.__setitem__("alpha", 3)),
+               ("dict-new-duplicate-value", lambda: byname.__setitem__("Delta", 1)), ("dict-update-kw-other-spelling", lambda: byname.update(BETA=1)),
+               ("dict-int-key-as-text", lambda: bynum.__setitem__("2", "a")), ("dict-setdefault-duplicate", lambda: byname.setdefault("Epsilon", 3)),
+               ("dotted-dict-replace", lambda: cfg.__setitem__("byname", dict(byname, ALPHA=2)))]
+        # fill the lists to the maximum so that fresh items are refused too
+        while len(nums) < 4:
+            nums.append(max(nums) + 1)
+        while len(pts) < 4:
+            pts.append({"name": "q%d" % len(pts)})
+        ops += [("append-when-full", lambda: nums.append(77)), ("insert-negative-when-full", lambda: nums.insert(-1, 78)), ("insert-zero-when-full", lambda: nums.insert(0, 79)),
+                ("insert-beyond-end-when-full", lambda: nums.insert(50, 80)), ("append-configuration-when-full", lambda: pts.append(fresh_pt)),
+                ("insert-negative-configuration-when-full", lambda: pts.insert(-2, fresh_pt))]
+        for name, fn in ops:
+            before = (list(nums), [id(x) for x in pts], [x.name for x in pts], list(byname.items()), list(bynum.items()), id(cfg.nums), id(cfg.pts), id(cfg.byname))
+            try:
+                fn()
+                raised = False
+            except Exception:  # noqa
+                raised = True
+            after = (list(cfg.nums), [id(x) for x in cfg.pts], [x.name for x in cfg.pts], list(cfg.byname.items()), list(cfg.bynum.items()), id(cfg.nums), id(cfg.pts), id(cfg.byname))
+            case = {"stream": "validated-container", "op": name, "config_type_items": T is not pt}
+            res.case(stable([name, i]) if raised else None, kind="validated-container:%s:%s" % (name, "rejected" if raised else "accepted"))
+            if raised and before != after:
+                res.violate("C06:validated-container-changed-state", "a rejected single-element operation on a typed container whose field has a validator of its own changed the container",
+                            dict(case, before=repr(before[:5])[:300], after=repr(after[:5])[:300]))
+                break
+            if not raised:
+                nums, pts, byname, bynum = cfg.nums, cfg.pts, cfg.byname, cfg.bynum
+
+
 def moved_item_stream(ctx, res, n):
     """a rejected single-element operation whose item is a configuration object that already sits in another list (of this or of a
     second live configuration): nothing may change anywhere — neither the target list nor the list the item came from"""
@@ -271,6 +347,7 @@ def run(ctx, n_quick=200, n_thorough=6000):
     guard(res, "C06", proxy_stream, ctx, res, ctx.n(60, 2000))
     guard(res, "C06", container_validator_stream, ctx, res, ctx.n(40, 1500))
     guard(res, "C06", moved_item_stream, ctx, res, ctx.n(60, 2000))
+    guard(res, "C06", validated_container_element_stream, ctx, res, ctx.n(20, 600))
     guard(res, "C06", doc_stream, ctx, res, ctx.n(3, 60))
     return res
 
